@@ -169,6 +169,13 @@ def run_unpack_case(case):
             wants = [('id', 'z', 'p', 'q')] + [(i + 1, 51 + i, 'w%d' % v[0], 'w%d' % v[1]) for i, v in enumerate(vals)]
             eq('split', [tuple(r) for r in etl.split(ts, 'v', ' ', ['p', 'q'])], wants)
             eq('capture', [tuple(r) for r in etl.capture(ts, 'v', r'(\w+) (\w+)', ['p', 'q'])], wants)
+            # the field given by INDEX, with and without the original field
+            eq('capture(field index)', [tuple(r) for r in etl.capture(ts, 1, r'(\w+) (\w+)', ['p', 'q'])], wants)
+            eq('split(field index)', [tuple(r) for r in etl.split(ts, 1, ' ', ['p', 'q'])], wants)
+            wio = [('id', 'v', 'z', 'p', 'q')] + [tuple(ts[i + 1]) + tuple(wants[i + 1][2:]) for i in range(len(vals))]
+            eq('capture(field index, include_original)', [tuple(r) for r in etl.capture(ts, 1, r'(\w+) (\w+)', ['p', 'q'], include_original=True)], wio)
+            eq('capture(include_original)', [tuple(r) for r in etl.capture(ts, 'v', r'(\w+) (\w+)', ['p', 'q'], include_original=True)], wio)
+            eq('split(field index, include_original)', [tuple(r) for r in etl.split(ts, 1, ' ', ['p', 'q'], include_original=True)], wio)
         if all(len(v) >= 2 for v in vals):
             # more pieces than new fields: every piece is still delivered (the row grows), nothing is lumped together
             wantx = [('id', 'z', 'p', 'q')] + [(i + 1, 51 + i) + tuple('w%d' % x for x in v) for i, v in enumerate(vals)]
@@ -176,6 +183,7 @@ def run_unpack_case(case):
         if all(len(v) >= 1 for v in vals):
             wantd = [('id', 'v', 'z')] + [(i + 1, 'w%d' % x, 51 + i) for i, v in enumerate(vals) for x in v]
             eq('splitdown', [tuple(r) for r in etl.splitdown(ts, 'v', ' ')], wantd)
+            eq('splitdown(field index)', [tuple(r) for r in etl.splitdown(ts, 1, ' ')], wantd)
         # the `flags` argument: the same pattern string first without and then with re.I (and the other way round)
         # must each behave like Python's re with exactly those flags
         import re as _re
